@@ -108,7 +108,7 @@ func setupGenStubs() map[string]string {
 		"Gen_ObsServe.tla":   "---- MODULE Gen_ObsServe ----\nGenTable == << [m |-> \"GET\", pat |-> <<\"/\">>, opt |-> \"none\"] >>\nGenCfg == [noMethod |-> FALSE, autoOptions |-> FALSE]\nGenHost == <<\"a\">>\n====\n",
 		"Gen_ObsMatch.tla":   "---- MODULE Gen_ObsMatch ----\nGenPool == << <<\"/\">> >>\nGenTables == << {1} >>\n====\n",
 		"Gen_Radix.tla":      "---- MODULE Gen_Radix ----\nGenPool == << <<\"/\">> >>\nGenMaxRoutes == 1\n====\n",
-		"Gen_Lookup.tla":     "---- MODULE Gen_Lookup ----\nGenPool == << <<\"/\">> >>\nGenPaths == << <<\"/\">> >>\nGenHosts == << <<\"a\">> >>\nGenMaxTab == 1\nGenEnumN == 1\nGenExtraTables == {}\nGenFixes == {}\n====\n",
+		"Gen_Lookup.tla":     "---- MODULE Gen_Lookup ----\nGenPool == << <<\"/\">> >>\nGenPaths == << <<\"/\">> >>\nGenHosts == << <<\"a\">> >>\nGenMaxTab == 1\nGenEnumN == 1\nGenExtraTables == {}\nGenFixes == {}\nGenCollect == FALSE\n====\n",
 		"Gen_Cow.tla":        "---- MODULE Gen_Cow ----\nGenPool == << <<\"/\">> >>\nGenMaxRoutes == 1\nGenMaxSnaps == 1\nGenMaxHist == 1\nGenVariant == \"none\"\n====\n",
 		"Gen_Roots.tla":      "---- MODULE Gen_Roots ----\nGenCommon == <<\"GET\">>\nGenCustom == {\"FOO\"}\nGenMaxCnt == 1\nGenVariant == \"none\"\n====\n",
 		"trace.ndjson":       "",
